@@ -29,6 +29,24 @@ CLAIMED = {
         "(oracle), SciPy's solvers (event model), floating-point norm. Known finding: Krylov with "
         "maxit=0 reports success (KNOWN_FINDINGS.txt).",
    technique='Lean 4 invariant over the cycle loop / event fold + trace correspondence; independent residual oracle'),
+ 'C10': dict(
+   text="Proof (Lean 4, ordered field / commutative ring): the 1-D adjoint-interpolation weights "
+        "of a point source sum to one for every position (interior, extrapolating outer half cells, "
+        "last interval), hence each Cartesian component of a point source sums to its unit "
+        "direction; partition of unity of the cell edge weights; the clipped parametric lengths of "
+        "the cells along a segment sum to one (1-D tiling lemma, also for empty overlaps); rotation "
+        "factors form a unit vector; the square loop of a magnetic dipole is closed, planar, "
+        "perpendicular to the dipole, of the stated area and right-handed; dipole electrode span; "
+        "field scaling linear. PARTIAL: the composition of the tiling lemma over the coded triple "
+        "cell loop (dipole_moment_stmt) is not proved - it is covered by the correspondence and by "
+        "the moment/support monitor on the real code. Tie to code: _point_vector and "
+        "_dipole_vector (dipoles, wires with 2..8 electrodes, positions on nodes/edges/faces and in "
+        "outer half cells) vs the exact model (T-float, dyadic coordinates); get_source_field for "
+        "every source class/input form/f>0,f<0,None with repeated calls; conversions.",
+   design='§4 C10',
+   note=TB % 'c10' + "Modelled not verified: sqrt and trigonometric functions (routed / compared "
+        "in floats). Known finding: segment inside an upper boundary face gives a NaN field.",
+   technique='Lean 4 sum/partition lemmas + ring identities; float correspondence with exact model; moment/support oracle'),
  'C11': dict(
    text="Proof (Lean 4) about the collection model PMap: for EVERY completion order of the tasks "
         "(hence any worker count and scheduling) the order-preserving collector returns "
